@@ -16,11 +16,16 @@ META = {
  "C13": {"technique": "TLC model checking of Replica.tla (HeadsExact) and Heads.tla (encode/news) + TLC trace validation (ReplicaTrace.tla Prop=C13, HeadsTrace.tla)",
          "text": "TLC checks heads = newest timestamp held over every reachable replica history incl. removal/re-creation, and that the encode mechanism satisfies the stated encode contract for all head sets of <= 4 authors x varint-boundary timestamps x boundary limits (three sensitivity configs must fail). Real code: heads and has_news_for_us after every step of seeded histories; AuthorHeads::encode/decode under ~9 limits per head set with exact encoded length.",
          "note": TB + " Limits >= 1; timestamps < 2^31 in traces."},
+ "C01": {"technique": "TLC model checking of Session.tla (Ranger.tla transcription of process_message) + TLC trace validation of complete real sessions (SessionTrace.tla, Prop=C01)",
+         "text": "TLC runs every pair of small normalized stores through a complete first and second session of the transcribed algorithm and checks termination bound, convergence to Kept(A0 u B0), mirrored counts, quiet second session and the code's own debug assertion (two sensitivity configs must fail). Real stores (memory/file, 10 configs via hook H3) then run sessions message by message; TLC validates every message, both stores after every step and the end-of-session obligations.",
+         "note": TB + " Fingerprint collision-freedom assumed (injectivity of observed fingerprints is checked). Model bounded to <= 2 entries per side (quick) / 8 (thorough)."},
+ "C08": {"technique": "Ranger.tla as reference ordered map; TLC trace validation of every real process_message step and of a primitive range sweep (SessionTrace.tla / ReplicaTrace.tla, Prop=C08)",
+         "text": "The specification's Ranger module is the plain-ordered-map reference (range scans in all three orderings, first key, fingerprints, prefix lookup/removal, pivots). Every process_message call of real sessions on the memory and the file-backed redb store, plus hand-built probe messages over arbitrary ranges (x<y, wrap-around, x=y, foreign endpoints) under 6 configs, must produce exactly the reply and post-state the reference prescribes; equality of the two backends follows from both equalling the reference.",
+         "note": TB + " Fingerprints compared up to an injectivity map."},
 }
 NOT_APPLICABLE = {
- "C01": "not yet bound (in progress): Session.tla model-checks; session driver pending",
  "C04": "not yet bound (in progress)", "C05": "not yet bound (in progress)",
- "C06": "not yet bound (in progress)", "C07": "not yet bound (in progress)", "C08": "not yet bound (in progress)",
+ "C06": "not yet bound (in progress)", "C07": "not yet bound (in progress)",
  "C09": "not yet bound (in progress)", "C10": "not yet bound (in progress)", "C11": "not yet bound (in progress)",
  "C14": "not yet bound (in progress)",
  "C15": "not yet bound (in progress)", "C16": "not yet bound (in progress)", "C17": "not yet bound (in progress)",
